@@ -583,7 +583,24 @@ func c16R6(p *engine.Prog, r *engine.Report) {
 	}
 	if f := mustFunc(p, r, "core/mempool", "KeysPool.GetEncryptedPrivateFlipKey"); f != nil {
 		sigs := map[string]string{}
-		for _, i := range engine.Ifs(f) {
+		// the tests may live in a same-package helper both branches call with the index
+		fns := []*ssa.Function{f}
+		for _, c := range engine.Calls(f) {
+			if h := c.Common().StaticCallee(); h != nil && h.Blocks != nil && h.Pkg == f.Pkg && h != f {
+				for _, a := range c.Common().Args {
+					for _, prm := range f.Params {
+						if prm.Type().String() == "int" && engine.Origin(a) == ssa.Value(prm) {
+							fns = append(fns, h)
+						}
+					}
+				}
+			}
+		}
+		var allIfs []*ssa.If
+		for _, g := range fns {
+			allIfs = append(allIfs, engine.Ifs(g)...)
+		}
+		for _, i := range allIfs {
 			cond, neg := stripNot(i.Cond)
 			bo, ok := cond.(*ssa.BinOp)
 			if !ok {
@@ -615,7 +632,11 @@ func c16R6(p *engine.Prog, r *engine.Report) {
 			keys = append(keys, k)
 		}
 		sort.Strings(keys)
-		r.Check(len(keys) == 1, "C16-R6", "GetEncryptedPrivateFlipKey|cached and first-lookup answers use the same index test", p.Pos(f.Pos()), strings.Join(keys, " | "), "the index tests of the two branches differ ("+strings.Join(keys, " | ")+"): a recipient gets its key on the first lookup and nil on the next (or the reverse) although the package holds its entry")
+		if len(keys) == 0 {
+			r.Und("C16-R6", "GetEncryptedPrivateFlipKey|cached and first-lookup answers use the same index test", p.Pos(f.Pos()), "no index test against the package length found (neither inline nor in a helper given the index)")
+		} else {
+			r.Check(len(keys) == 1, "C16-R6", "GetEncryptedPrivateFlipKey|cached and first-lookup answers use the same index test", p.Pos(f.Pos()), strings.Join(keys, " | "), "the index tests of the two branches differ ("+strings.Join(keys, " | ")+"): a recipient gets its key on the first lookup and nil on the next (or the reverse) although the package holds its entry")
+		}
 	}
 	r.Floor("C16-R6", 2, "attribution + index tests")
 }
